@@ -280,14 +280,8 @@ func (R *Repository) updateCRL(identifier string) error {
 	if entry != nil {
 		R.logger.Debug("updating crl from " + entry.CRLLoader.GetDescription())
 		if R.isEntryLoaded(entry) == false {
-			if entry.Locations != nil {
-				//the locations are needed for later updates of the crl
-				err := entry.CRLStore.UpdateCRLLocations(entry.Locations)
-				if err != nil {
-					return err
-				}
-			}
-			return R.loadCRL(entry, entry.Chains)
+			//load under the entry lock, handshakes may use the entry concurrently
+			return R.loadActively(entry, nil, entry.Locations)
 		} else {
 			return R.updateCrlEntry(entry, nil)
 		}
@@ -518,9 +512,15 @@ func (R *Repository) loadActively(entry *Entry, chains *core.CertificateChains, 
 	defer entry.entryLock.Unlock()
 	//check again after getting write lock if entry is still not loaded
 	if entry.Loaded == false {
-		err := entry.CRLStore.UpdateCRLLocations(crlLocations)
-		if err != nil {
-			return err
+		if crlLocations != nil {
+			//the locations are needed for later updates of the crl
+			err := entry.CRLStore.UpdateCRLLocations(crlLocations)
+			if err != nil {
+				return err
+			}
+		}
+		if chains == nil {
+			chains = entry.Chains
 		}
 		return R.loadCRL(entry, chains)
 	}
